@@ -167,18 +167,30 @@ def run(ctx):
         if asts:
             ref = asts[0][2]
             lv = leaves(ref, set())
-            for lit in LITERAL.findall(plain):
+            seen_keys = set()
+            for mo in LITERAL.finditer(plain):
+                lit = mo.group(0)
                 want = lit[1:-1] if lit.startswith('"') else lit
                 if want not in lv and lit not in lv:
-                    res.oracle_failures.append({'key': 'values-exact', 'what': 'literal %s of the text does not appear in the tree as written' % lit,
-                                                'input': asts[0][3]})
-                    break
+                    key = 'values-exact' + literal_context(plain, mo.start())
+                    if key in seen_keys:
+                        continue
+                    seen_keys.add(key)
+                    res.oracle_failures.append({'key': key, 'what': 'literal %s of the text does not appear in the tree as written' % lit,
+                                                'input': dict(asts[0][3], expect_literal=want)})
             for dialect, vi, a, inp in asts[1:]:
                 if a != ref:
                     res.oracle_failures.append({'key': 'layout-independent' if dialect == asts[0][0] else 'dialect-independent',
                                                 'what': 'the tree changes with the layout / dialect (%s, layout %d)' % (dialect, vi),
                                                 'input': dict(inp, reference=asts[0][3]['text'])})
                     break
+            try:
+                sd = pc.structure_diffs(m, pc.plain(ref)[0])
+            except Exception as e:
+                sd = ['the tree does not have the shape of a module: %s' % type(e).__name__]
+            if sd:
+                res.oracle_failures.append({'key': 'clause-arguments', 'what': 'clause arguments / list order in the tree differ from the text: ' + '; '.join(sd[:3]),
+                                            'input': dict(asts[0][3], expect_structure=True, gen_seed=seed, nasty=(i % 2 == 0))})
             names = pc.decl_names(ref)
             want = [(m['name'], [d['name'] for d in m['decls']])]
             if names != want:
@@ -202,9 +214,31 @@ def search(ctx):
     run(ctx)
 
 
+def literal_context(text, pos):
+    """which clause a literal at `pos` is the argument of, for the clauses whose arguments the parser discards by
+    design (p_ComplianceGroup keeps the group name only); '' for every other place"""
+    import re
+    if re.search(r'\bGROUP\s+[A-Za-z][\w-]*\s+DESCRIPTION\s+$', text[:pos]):
+        return ':compliance-group-description'
+    return ''
+
+
 def replay(payload):
     inp = payload['input']
     ex = grammar.build(pc.DIALECTS[inp['dialect']])
+    if inp.get('expect_structure'):
+        g, m, _ = pc.gen_module_text(inp['gen_seed'], wild=False, nasty=inp.get('nasty', False))
+        a = pc.impl_parse(ex, inp['text'])
+        if 'ast' not in a:
+            return {'fails': True, 'impl': a}
+        try:
+            sd = pc.structure_diffs(m, pc.plain(strip_fillers(a['ast']))[0])
+        except Exception as e:
+            sd = [type(e).__name__]
+        return {'fails': bool(sd), 'what': sd[:5]}
+    if 'expect_literal' in inp:
+        a = pc.impl_parse(ex, inp['text'])
+        return {'fails': 'ast' not in a or inp['expect_literal'] not in leaves(strip_fillers(a['ast']), set())}
     if 'after' in inp:
         pc.impl_parse(ex, inp['after'])
     a = pc.impl_parse(ex, inp['text'])
